@@ -173,6 +173,13 @@ def check_C18(res, tier, seed, replay):
         exe = harness()
         mc(res, 'ExtGcd', 'MC_ExtGcd_q.cfg' if tier == 'quick' else 'MC_ExtGcd_t.cfg',
            'ext_gcd loop model: Bezout loop invariant and postcondition for all (a,b) in -K..K')
+        try:
+            nob, npr = vlib.tlaps('GcdAlgebra')
+        except Exception as e:
+            nob, npr = 0, 0
+            res.cov['tlaps_error'] = str(e)[-300:]
+        res.cov['tlaps'] = {'module': 'GcdAlgebra.tla', 'obligations': nob, 'discharged': npr, 'checker_cmd': 'tlapm GcdAlgebra.tla',
+                            'what': 'one ext_gcd loop iteration preserves the Bezout combinations; the sign fix-up at the exit is right (unbounded integers)'}
         K = 25 if tier == 'quick' else 40
         pure = []
         for T in ('int', 'long', 'cpp_int'):
